@@ -144,6 +144,10 @@ def check_step(ck, rng, spec, cfg, case_key):
     after = optspy.param_snapshot(model)
     cor = sorted(trace.of("CORRECT"), key=lambda e: e["idx"])
     solves = trace.of("SOLVE")
+    order = [e["idx"] for e in trace.of("CORRECT")]
+    if not ck.check(order == list(range(spec["nres"])), "assemble", regime, entry, "corrector_of_residual_i_is_not_the_i_th_configured_one",
+                    dict(wit, corrector_call_order=order, residuals=spec["nres"])):
+        return
     if not cor or not solves:
         ck.violation("assemble", regime, entry, "spies_not_called", dict(wit, events=[e["kind"] for e in trace.events]))
         return
@@ -197,7 +201,10 @@ def check_step(ck, rng, spec, cfg, case_key):
         A, b, x = s["A"].double(), s["b"].double().reshape(-1, 1), s["x"].double().reshape(-1, 1)
         nA = float(torch.linalg.matrix_norm(A, 2))
         res = float((A.T @ (A @ x - b)).norm())
-        tol = 1e-7 * nA * (nA * float(x.norm()) + float(b.norm())) + 1e-300
+        sv_ = torch.linalg.svdvals(A)
+        pos_ = sv_[sv_ > sv_[0] * 1e-14] if sv_.numel() and float(sv_[0]) > 0 else sv_
+        kappa = float(pos_[0] / pos_[-1]) if pos_.numel() else 1.0
+        tol = max(1e-7, 256 * 2.0 ** -52 * kappa) * nA * (nA * float(x.norm()) + float(b.norm())) + 1e-300
         ck.ratio("solve", regime, res, tol, entry, "step_is_not_a_least_squares_solution", wit)
         ck.count("solve", regime, key=case_key)
         if cfg["opt"] == "GN" and cfg["solver"] == "PINV":
@@ -233,6 +240,13 @@ def check_step(ck, rng, spec, cfg, case_key):
         if not p.requires_grad:
             ck.check(torch.equal(before[n], after[n]), "update", regime, entry, "frozen_parameter_changed", dict(wit, param=n))
             ck.mark("update/frozen_seen")
+    steps_seen = [float(e_["x"].abs().max()) for e_ in solves if "x" in e_ and e_["x"].numel()]
+    if any(not torch.isfinite(v).all() for v in list(pre_trial.values()) + list(after.values())) or (steps_seen and not (max(steps_seen) < 1e3)):
+        # an indefinite clamped system produced an astronomically large step in some trial and a group parameter overflowed
+        # (scale e^sigma -> inf, restored to nan): the update clause is undecidable past that point, the system clause above was judged
+        ck.note_add("update_not_judged_after_overflowing_trial", 1)
+        accepted = None
+        train = []
     if accepted is not None:
         sizes = [before[n].numel() for n in train]
         parts = accepted.reshape(-1).split(sizes)
